@@ -288,12 +288,14 @@ func Check(env *core.Env, rep *core.Report) *core.Result {
 	})
 	// the timeout of a task that a watcher starts for an event (through the binary)
 	watchRuns := watchRun(env, rep)
-	atomic.AddInt64(&runs, int64(watchRuns))
+	stageRuns := stageRun(env, rep)
+	atomic.AddInt64(&runs, int64(watchRuns+stageRuns))
 	gen, dist, nruns, cmds := core.TLCTotals()
 	cov := map[string]interface{}{
 		"states": dist, "transitions": gen, "tlc_runs": nruns,
 		"traces_validated_against_impl":      int(runs),
 		"watcher_started_runs":               watchRuns,
+		"runs_as_a_pipeline_stage":           stageRuns,
 		"mismatches_rerun_alone_at_4x_scale": int(confirmations),
 		"configurations_in_model":            len(scens),
 		"evaluations":                        int(runs),
